@@ -88,7 +88,8 @@ def n_cases(tier):
 
 
 def exhaustive(tier):
-    return True
+    # quick enumerates all 256 codes for the main grid but only a subset of codes for the prior-fragment variants
+    return tier == "thorough"
 
 
 def make_case(tier, seed, index):
@@ -285,3 +286,8 @@ def run_e2e(case):
 
 def simplify(case):
     return []
+
+
+def evidence_extra(tier):
+    return {"systematic_cases": len(_space(tier)), "seeded_cases": 0,
+            "systematic_part": "all 256 exception codes x command x transport x retry index (+ prior-fragment variants, texts, end-to-end)"}
